@@ -166,7 +166,7 @@ PLAN = {
              "Verus models `as i64` of a u64 only when the cast is marked truncating (logged substitution, same meaning as Rust's)",
     ),
     "C08": dict(
-        verus=["pdi_config", "group_config", "sm_config", "pdo_sums"], kani=[], assumptions=['configure_pdos_eeprom / configure_pdos_coe are ASSUMED to return the segment [offset in, offset out) with offset out >= offset in (iterator adapters)', 'ESC hardware semantics of sync managers and FMMUs'], level="proof",
+        verus=["pdi_config", "group_config", "sm_config", "pdo_sums"], kani=["pdi_guards"], assumptions=['configure_pdos_eeprom / configure_pdos_coe are ASSUMED to return the segment [offset in, offset out) with offset out >= offset in (iterator adapters)', 'ESC hardware semantics of sync managers and FMMUs'], level="proof",
         claim="SubDeviceGroup::configure_fmmus extracted WHOLE (Verus, any number of devices, any sizes): on Ok the windows tile the image in group order - inputs "
               "[pos_i, pos_i+1) from 0 up to read_pdi_len, then outputs from read_pdi_len up to pdi_len (all inputs before all outputs, mutually disjoint, inside the image) - "
               "and read_pdi_len <= pdi_len <= MAX_PDI (the precondition C07's cycle relies on), so a layout that does not fit can only end in an error; "
